@@ -187,9 +187,9 @@ def build_skeleton_tagfile(rng, bones, poses, extra=True):
     return bytes(w.b)
 
 
-def build_sklb(version, havok, rng):
+def build_sklb(version, havok, rng, filler_len=None):
     """version 1 -> 0x31323030 container, 2 -> 0x31333030 / 0x31333031"""
-    filler = rng.randbytes(rng.choice([0, 4, 40]))
+    filler = rng.randbytes(rng.choice([0, 4, 40]) if filler_len is None else filler_len)
     if version == 1:
         hoff = 8 + 20 + len(filler)
         hdr = struct.pack("<iI", 0x736B6C62, 0x31323030) + struct.pack("<HHIIII", 28, hoff, rng.getrandbits(32), 0, 0, 0)
